@@ -160,6 +160,7 @@ def parse_coq_value(out):
 def eval_shards(files, timeout=1500):
     """coqc every shard in parallel; returns (values, errors)."""
     def one(f):
+        f = os.path.abspath(f)
         rc, out = run(["coqc", "-noglob", "-Q", os.path.join(COQ, "theories"), "LV", f],
                       cwd=os.path.dirname(f), timeout=timeout)
         if rc != 0:
